@@ -1,6 +1,17 @@
 import DdoModel.Proto
 import DdoModel.Engines.Store
 import DdoModel.Examples.Knapsack
+import DdoModel.Examples.Misp
+import DdoModel.Examples.Max2sat
+import DdoModel.Examples.Mcp
+import DdoModel.Examples.Lcs
+import DdoModel.Examples.Golomb
+import DdoModel.Examples.Psp
+import DdoModel.Examples.Sop
+import DdoModel.Examples.Tsptw
+import DdoModel.Examples.Srflp
+import DdoModel.Examples.Talentsched
+import DdoModel.Examples.Alp
 /-! Driver engine `ex` (C16): the objective printed by a shipped example program vs. the independent
     exhaustive specification of its combinatorial problem.
     case: `<name> <width|-1> <threads> | <spec tokens> | <hex of the instance file>`;
@@ -12,6 +23,17 @@ open Ddo.Proto
 def exSpec (name : String) (toks : List Int) : Option Int :=
   match name with
   | "knapsack" => Examples.Knapsack.specFromTokens toks
+  | "misp" => Examples.Misp.specFromTokens toks
+  | "max2sat" => Examples.Max2sat.specFromTokens toks
+  | "mcp" => Examples.Mcp.specFromTokens toks
+  | "lcs" => Examples.Lcs.specFromTokens toks
+  | "golomb" => Examples.Golomb.specFromTokens toks
+  | "psp" => Examples.Psp.specFromTokens toks
+  | "sop" => Examples.Sop.specFromTokens toks
+  | "tsptw" => Examples.Tsptw.specFromTokens toks
+  | "srflp" => Examples.Srflp.specFromTokens toks
+  | "talentsched" => Examples.Talentsched.specFromTokens toks
+  | "alp" => Examples.Alp.specFromTokens toks
   | _ => none
 
 def exEngine (c i : List String) : Option Res := do
